@@ -193,6 +193,26 @@ func c02Sniff(b []byte, format string) string {
 	case !utf8.Valid(b):
 		enc = "non-utf8(sjis?)"
 	}
+	if !strings.HasPrefix(enc, "utf16") && len(b) >= 4 {
+		// UTF-16 without a byte-order mark whose first character is not ASCII (a header-less file beginning with a CJK cell):
+		// delimiters, digits and line breaks still put a zero byte at every other position
+		ze, zo := 0, 0
+		for k, c := range b {
+			if c == 0 {
+				if k%2 == 0 {
+					ze++
+				} else {
+					zo++
+				}
+			}
+		}
+		switch {
+		case ze*8 >= len(b) && ze > 4*zo:
+			enc = "utf16be"
+		case zo*8 >= len(b) && zo > 4*ze:
+			enc = "utf16le"
+		}
+	}
 	p = append(p, "enc="+enc)
 	text := string(b)
 	if strings.HasPrefix(enc, "utf16") {
@@ -244,7 +264,8 @@ func c02Sniff(b []byte, format string) string {
 	case cr > 0 && crlf == 0 && lf == 0:
 		lb = "cr"
 	case crlf+lf+cr > 0:
-		lb = fmt.Sprintf("mixed(crlf=%d,lf=%d,cr=%d)", crlf, lf, cr)
+		// which kinds occur, not how often: the number of records is no part of the dialect
+		lb = fmt.Sprintf("mixed(crlf=%v,lf=%v,cr=%v)", crlf > 0, lf > 0, cr > 0)
 	}
 	p = append(p, "lb="+lb)
 	if format == "JSON" || format == "JSONL" {
